@@ -60,6 +60,12 @@ type expr struct {
 	ranges   []rune
 	classes  []string
 
+	// lit: the `want` string, charClass: the `val` string (the text failAt records for the
+	// "no match found, expected: ..." message); only read by the failnames subcommand.
+	// grammar.go: the field as written; grammar.peg: derived the way pigeon's builder derives it.
+	want    string
+	hasWant bool
+
 	// Only used by the PEG reader (T2).
 	code    string   // text between the braces of an action / predicate code block
 	hasCode bool     // node carries a code block
